@@ -138,6 +138,13 @@ def zipRecs (f : Rec R → Rec R → World R → Outcome (Rec R × World R)) :
       | .ok (ys, w2) => .ok (y :: ys, w2)
   | _, _, w => .ok ([], w)
 
+/-- two entries of a list exchanged (nothing happens unless both exist): what "moving two records"
+    means for the element-by-element computation -/
+def listSwap {α : Type} (l : List α) (i j : Nat) : List α :=
+  match l[i]?, l[j]? with
+  | some x, some y => (l.set i y).set j x
+  | _, _ => l
+
 section Basic
 variable [Zero R]
 
